@@ -44,6 +44,24 @@ def val(x):
     raise TypeError(type(x))
 
 
+_DEFS = []
+
+
+def R(e):
+    """share a subexpression: it is evaluated once per event (node ref) -- use for anything referenced more than once"""
+    e = val(e)
+    if e.get("t") in ("ref", "z", "i", "f", "q"):
+        return e
+    _DEFS.append(e)
+    return {"t": "ref", "i": len(_DEFS) - 1}
+
+
+def take_defs():
+    d = list(_DEFS)
+    del _DEFS[:]
+    return d
+
+
 def add(*a): return {"t": "add", "a": [val(x) for x in a]}
 def mul(*a): return {"t": "mul", "a": [val(x) for x in a]}
 def mx(*a): return {"t": "max", "a": [val(x) for x in a]}
@@ -117,3 +135,74 @@ def c_rel_close(r, v, tolbits, p):
 
 def oblig_event(id_, judgement, p=0, **meta):
     return enc.event(id_, "oblig", [], p, "n", enc.sym("none"), pb=0, x={"j": judgement})
+
+
+# ---- small dense linear algebra on expression trees (lists of lists) -------------------------------
+def mat_of(M, complex_ok=False):
+    """mpmath matrix -> list of rows of expressions (real matrices only unless complex_ok)"""
+    rows = []
+    for i in range(M.rows):
+        row = []
+        for j in range(M.cols):
+            x = M[i, j]
+            if hasattr(x, "_mpc_"):
+                if not complex_ok:
+                    raise ValueError("complex entry")
+                row.append(c_of(x))
+            else:
+                row.append(val(x) if not complex_ok else (val(x), Z(0)))
+        rows.append(row)
+    return rows
+
+
+def matmul(A, B):
+    n, m, k = len(A), len(B[0]), len(B)
+    return [[R(add(*[mul(A[i][t], B[t][j]) for t in range(k)])) for j in range(m)] for i in range(n)]
+
+
+def matsub(A, B):
+    return [[R(sub(a, b)) for a, b in zip(ra, rb)] for ra, rb in zip(A, B)]
+
+
+def transpose(A):
+    return [list(r) for r in zip(*A)]
+
+
+def ident(n):
+    return [[Z(1 if i == j else 0) for j in range(n)] for i in range(n)]
+
+
+def maxabs(A):
+    return R(mx(*[ab(x) for r in A for x in r]))
+
+
+def norminf(A):
+    """max absolute row sum"""
+    return R(mx(*[add(*[ab(x) for x in r]) for r in A]))
+
+
+def cmatmul(A, B):
+    n, m, k = len(A), len(B[0]), len(B)
+    out = []
+    for i in range(n):
+        row = []
+        for j in range(m):
+            acc = (Z(0), Z(0))
+            for t in range(k):
+                acc = cadd(acc, cmul(A[i][t], B[t][j]))
+            row.append((R(acc[0]), R(acc[1])))
+        out.append(row)
+    return out
+
+
+def cmatsub(A, B):
+    return [[tuple(R(v) for v in csub(a, b)) for a, b in zip(ra, rb)] for ra, rb in zip(A, B)]
+
+
+def cmaxabs2(A):
+    """max squared modulus"""
+    return R(mx(*[cnorm2(x) for r in A for x in r]))
+
+
+def cconjT(A):
+    return [[(A[j][i][0], neg(A[j][i][1])) for j in range(len(A))] for i in range(len(A[0]))]
